@@ -30,7 +30,7 @@ ASSUMPTIONS = [
     "test_buffer_flush assumes",
 ]
 STRATA = ["no_forcing", "forcing"]
-PER = {"quick": {"no_forcing": 120, "forcing": 120}, "thorough": {"no_forcing": 3000, "forcing": 3000}}
+PER = {"quick": {"no_forcing": 400, "forcing": 400}, "thorough": {"no_forcing": 3000, "forcing": 3000}}
 STEPS = {"quick": 35, "thorough": 55}
 
 
